@@ -24,10 +24,26 @@ PatternVal(s) == FoldLeft(LAMBDA acc, i : BAdd(acc, BMul(BFromInt(LimbChoice(i, 
 Elem(s) == BMulMod(BMod(PatternVal(s), C.p), RInv, C.p)
 FieldSeeds == {(k * 7919 + 13) % 262144 : k \in 1..NField} \cup {0, 1, 262143, 87381, 174762}
 CombCases == {[kind |-> "comb", t |-> t, i |-> i] : t \in {0, 1}, i \in 1..15}
+\* --- pairs of DISTINCT points with the same y coordinate: the three roots of x^3 + ax + b - y^2 (when they lie in the field).
+\* Their sum is a finite point - (x1, y) + (x2, y) = (-x1 - x2, -y) - although the numerators of the addition formulas vanish.
+PowMod(a, e, m) == LET nb == BBitLen(e) IN
+                   FoldLeft(LAMBDA acc, i : LET sq == BMulMod(acc, acc, m) IN IF BBit(e, nb - i) THEN BMulMod(sq, a, m) ELSE sq, "1", [i \in 1..nb |-> i])
+SqrtP(a) == PowMod(a, BDiv(BAdd(C.p, "1"), "4"), C.p)          \* p = 3 mod 4; a root of a if a is a square
+SameY(k) == LET A == PMul(C, BFromInt(k), G(C))
+                disc == BSubMod(BSubMod("0", BMulMod("3", BMulMod(A.x, A.x, C.p), C.p), C.p), BMulMod("4", C.a, C.p), C.p)   \* -3 x1^2 - 4a
+                r == SqrtP(disc)
+                ok == BMulMod(r, r, C.p) = disc
+                x2 == BMulMod(BSubMod(r, A.x, C.p), BInvMod("2", C.p), C.p)
+                B == Pt(x2, A.y)
+            IN [ok |-> ok /\ OnCurve(C, x2, A.y) /\ x2 # A.x, p |-> Aff(A), q |-> [x |-> x2, y |-> A.y],
+                expect |-> IF ok THEN Aff(PAdd(C, A, B)) ELSE Aff(A),
+                \* what the shape of the sum must be, whatever formulas computed it
+                shape |-> ok => LET S == PAdd(C, A, B) IN ~S.inf /\ S.x = BSubMod(BSubMod("0", A.x, C.p), x2, C.p) /\ S.y = BSubMod("0", A.y, C.p)]
+SameYCases == {[kind |-> "addsamey", k |-> k] : k \in 2..40}
 Cases == {[kind |-> "basemul", d |-> d] : d \in ScalarSet} \cup
          {[kind |-> "mul", j |-> j, d |-> d] : j \in Bases, d \in ScalarSet} \cup
          {[kind |-> "genkey", r |-> r] : r \in Readers} \cup {[kind |-> "params"]} \cup
-         {[kind |-> "field", s |-> s, t |-> (s * 31 + 7) % 262144] : s \in FieldSeeds} \cup CombCases
+         {[kind |-> "field", s |-> s, t |-> (s * 31 + 7) % 262144] : s \in FieldSeeds} \cup CombCases \cup SameYCases
 TInit == c \in Cases /\ done = FALSE /\ P = Inf /\ dl = "0" /\ hist = <<>>
 Eval(x) == CASE x.kind = "basemul" -> [k |-> ScalarBytes(x.d), expect |-> Aff(PMulBytes(C, ScalarBytes(x.d), G(C)))]
              [] x.kind = "mul" -> LET B == PMul(C, BFromInt(x.j), G(C)) IN
@@ -40,6 +56,7 @@ Eval(x) == CASE x.kind = "basemul" -> [k |-> ScalarBytes(x.d), expect |-> Aff(PM
              [] x.kind = "comb" -> LET k == FoldLeft(LAMBDA acc, j : IF (x.i \div Pow2(j - 1)) % 2 = 1 THEN BAdd(acc, Pow2N(64 * (j - 1) + 32 * x.t)) ELSE acc,
                                                      "0", <<1, 2, 3, 4>>) IN
                                    [expect |-> Aff(PMul(C, k, G(C)))]
+             [] x.kind = "addsamey" -> SameY(x.k)
              [] x.kind = "params" -> [expect |-> [p |-> C.p, n |-> C.n, b |-> C.b, gx |-> C.gx, gy |-> C.gy, a |-> C.a, bits |-> 256]]
 TNext == /\ ~done /\ done' = TRUE /\ UNCHANGED <<c, P, dl, hist>>
          /\ PrintT(<<"CASE", ToJson([case |-> c, data |-> Eval(c)])>>)
